@@ -581,6 +581,21 @@ func runC18(p *core.Prog, r *core.Result) {
 		})
 	}
 	r.Analysed["line_buffer_replacing_stores"] = nStore
+	// the rule expects no such store on today's tree: say what was looked at, and fail if the buffer is not recognised
+	nApp := 0
+	for _, fn := range p.ModuleFuncs() {
+		if fn.Pkg != nil && fn.Pkg.Pkg.Path() == pkgRoot {
+			core.Instrs(fn, func(in ssa.Instruction) {
+				if _, ok := bufAppend(in); ok {
+					nApp++
+				}
+			})
+		}
+	}
+	r.Floor("R18.6", nApp, 1, "appends to the line buffer (the buffer is recognised)")
+	if nStore == 0 && nApp > 0 {
+		r.OK("R18.6", "dawn.lineWriter#no-replacing-store", "-", "the line buffer is only ever appended to (%d sites, copying) or reset: no store replaces it by a value that could alias the caller's chunk", nApp)
+	}
 }
 
 // checkLineReassembly implements R18.5: the structure that makes lineWriter.Write deliver every byte exactly once,
